@@ -388,7 +388,51 @@ def sx_meth(recv, name, /, *a, **k):
         raise Unsupported('native set .%s with symbolic argument' % name)
     elif recv is _re:
         return getattr(RE_SHIM, name)(*a, **k)
+    elif (recv is _os_path or recv is _os) and _anysym(a):
+        f = _PATH_SHIMS.get(name)
+        if f is None: raise Unsupported('os.path.%s on a symbolic string' % name)
+        return f(*a, **k)
     return getattr(recv, name)(*a, **k)
+
+import os as _os, os.path as _os_path
+
+def _p_isabs(s): return s.startswith('/')
+def _p_split(p):
+    i = p.rfind('/') + 1
+    head, tail = p[:i], p[i:]
+    if head:
+        stripped = head.rstrip('/')
+        if len(stripped): head = stripped
+    return head, tail
+def _p_basename(p): return p[p.rfind('/') + 1:]
+def _p_dirname(p): return _p_split(p)[0]
+def _p_join(a, *ps):
+    path = a
+    for b in ps:
+        if bool(b.startswith('/')) if len(b) else False: path = b
+        elif not len(path) or bool(path.endswith('/')): path = path + b
+        else: path = path + '/' + b
+    return path
+def _p_fspath(p): return p
+def _p_normpath(path):
+    if not len(path): return '.'
+    initial = 0
+    if bool(path.startswith('/')):
+        initial = 1
+        if bool(path.startswith('//')) and not bool(path.startswith('///')): initial = 2
+    comps = path.split('/')
+    new = []
+    for comp in comps:
+        if not len(comp) or bool(comp == '.'): continue
+        if bool(comp != '..') or (not initial and not new) or (new and bool(new[-1] == '..')):
+            new.append(comp)
+        elif new:
+            new.pop()
+    out = ''
+    for n, c in enumerate(new): out = out + ('/' if n else '') + c
+    if initial: out = '/' * initial + out
+    return out if len(out) else '.'
+_PATH_SHIMS = dict(isabs=_p_isabs, split=_p_split, basename=_p_basename, dirname=_p_dirname, join=_p_join, fspath=_p_fspath, normpath=_p_normpath)
 
 def sx_set(*items):
     if _anysym(items): return SymSet(items)
